@@ -6,6 +6,8 @@ import PlatypusModel.Model.PyFloat
 import PlatypusModel.Model.Epsilon
 import PlatypusModel.Model.Sorting
 import PlatypusModel.Model.Grid
+import PlatypusModel.Model.Run
+import PlatypusModel.Model.Survival
 open Wire Platypus
 
 namespace Ops
@@ -213,8 +215,34 @@ def opsGrid (op : String) : Option (P String) :=
       pure (if out.isEmpty then "-" else " ".intercalate out.reverse)
   | _ => none
 
+def opsRun (op : String) : Option (P String) :=
+  match op with
+  | "runinc" => some do
+      let n ← nat; let incs ← list nat
+      let (k, tot, ex) := runOnIncs n incs 0 0
+      pure s!"{k} {tot} {if ex then 1 else 0}"
+  | "runmodel" => some do   -- the model's own run over a constant step size
+      let n ← nat; let stepSize ← nat; let start ← nat
+      let (fin, k) := run (fun x => x + stepSize) id n start
+      pure s!"{k} {fin}"
+  | "evalall" => some do
+      let flags ← list bool
+      let (calls, inc) := evalAll flags
+      pure s!"{calls} {inc}"
+  | _ => none
+
+def opsSurvival (op : String) : Option (P String) :=
+  match op with
+  | "nsga2" => some do
+      let c ← bool; let dirs ← list bool; let n ← nat; let merged ← list solF
+      pure ("v " ++ showNats (nsga2Survival c dirs merged n))
+  | "gde3" => some do
+      let c ← bool; let dirs ← list bool; let n ← nat; let off ← list solF; let pop ← list solF
+      pure ("v " ++ showNats (gde3Survival c dirs off pop n))
+  | _ => none
+
 def dispatch (op : String) (args : List String) : Except String String :=
-  match (opsGray op <|> opsDominance op <|> opsConstraint op <|> opsEps op <|> opsSorting op <|> opsGrid op) with
+  match (opsGray op <|> opsDominance op <|> opsConstraint op <|> opsEps op <|> opsSorting op <|> opsGrid op <|> opsRun op <|> opsSurvival op) with
   | some p => Wire.run p args
   | none => .error "bad-op"
 
